@@ -229,6 +229,53 @@ def run_case(inp):
     return viols
 
 
+def run_range_case(inp):
+    """(max, step) ranges: the searched set is the documented one — per axis the multiples of `step` within
+    [-max, max] (2n+1 angles, n = floor(max/step), zero included), combined over acryo's z, y, x axes — and a
+    sub-volume rotated by a member of that set is reported with that member."""
+    import dask
+    from scipy import ndimage as ndi
+    from scipy.spatial.transform import Rotation
+    from acryo.alignment import ZNCCAlignment
+    from acryo._utils import compose_matrices
+    viols = []
+
+    def V(clause, desc):
+        viols.append({"clause": clause, "desc": desc, "input": dict(inp)})
+
+    spec = tuple((float(a), float(b)) for a, b in inp["ranges"])
+    grids = []
+    for mx, st in spec:
+        nn = int(np.floor(mx / st + 1e-9)) if st > 0 else 0
+        grids.append([st * i for i in range(-nn, nn + 1)])
+    import itertools
+    # acryo's (z, y, x) Euler angles act on scipy's (x, y, z) axes
+    want = [Rotation.from_euler("zyx", [ax, ay, az], degrees=True) for az, ay, ax in itertools.product(*grids)]
+    n = inp["n"]
+    tmpl = _template(100 + inp["seed"] % 7, n)
+    m = ZNCCAlignment(tmpl, rotations=spec)
+    got = Rotation.from_quat(np.asarray(m.quaternions, dtype=np.float64))
+    if len(got) != len(want):
+        V("range-set", f"(max, step) ranges {spec} search {len(got)} rotations, the documented grid has {len(want)}")
+        return viols
+    ang = np.array([min((g * w.inv()).magnitude() for g in got) for w in want])
+    if ang.max() > 1e-4:
+        k = int(np.argmax(ang))
+        V("range-set", f"(max, step) ranges {spec}: documented rotation {np.round(want[k].as_euler('zyx', degrees=True)[::-1], 3).tolist()} "
+                       f"(z, y, x degrees) is not searched (nearest searched one is {np.degrees(ang[k]):.2f} degrees away)")
+        return viols
+    k = int(inp["k"]) % len(want)
+    c = (n - 1) / 2
+    mtx = compose_matrices(np.array([c, c, c]), [want[k].inv()])[0].astype(np.float64)
+    sub = ndi.affine_transform(tmpl, mtx, order=1, mode="constant", cval=0.0).astype(np.float32)
+    with dask.config.set(scheduler="synchronous"):
+        r = m.align(sub, (1.0, 1.0, 1.0))
+    err = (Rotation.from_quat(np.asarray(r.quat, dtype=np.float64)) * want[k].inv()).magnitude()
+    if err > 1e-3:
+        V("rotation", f"(max, step) ranges {spec}: planted documented rotation #{k} reported {np.degrees(err):.2f} degrees off")
+    return viols
+
+
 def run_stub_case(inp):
     """Prescribed candidate scores (unique maximum at flat index `best`) through the loader paths:
     the stored label must be the template of the best candidate and the stored rotation its rotation,
@@ -301,15 +348,21 @@ def oracle(rng, thorough, deep=False, hints=None):
                     sh = [int(x) for x in rng.integers(-1, 2, size=3)]
                     cases.append(dict(T=T, K=K, j=j, k=k, n=int(rng.choice([10, 11])), shift=sh,
                                       model=mdl, via=via, mask="slab" if (len(cases) % 2 == 0 and T > 1 and K > 1) else None))
+    # (max, step) range forms, also with max not a multiple of step and with one or two axes switched off
+    rsets = [[(20, 15), (0, 0), (0, 0)], [(0, 0), (25, 10), (0, 0)], [(10, 5), (4, 2), (8, 4)], [(0, 0), (0, 0), (35, 20)],
+             [(15, 15), (20, 15), (0, 0)], [(30, 12.5), (0, 0), (7.5, 7.5)]]
+    for i, rs in enumerate(rsets if (thorough or deep) else rsets[:3]):
+        cases.append(dict(kind="range", via="range", ranges=[list(x) for x in rs], n=int(rng.choice([10, 11])),
+                          k=int(rng.integers(0, 1000)), seed=int(rng.integers(0, 10 ** 6))))
     viols = []
     stats = {"by_via": {}, "samples": [{"oracle_case": c} for c in cases[:2]]}
     for inp in cases:
         stats["by_via"][inp["via"]] = stats["by_via"].get(inp["via"], 0) + 1
-        viols += run_stub_case(inp) if inp.get("kind") == "stub" else run_case(inp)
+        viols += {"stub": run_stub_case, "range": run_range_case}.get(inp.get("kind"), run_case)(inp)
     return len(cases), viols, stats
 
 
 def replay(payload):
     inp = dict(payload["input"])
-    v = run_stub_case(inp) if inp.get("kind") == "stub" else run_case(inp)
+    v = {"stub": run_stub_case, "range": run_range_case}.get(inp.get("kind"), run_case)(inp)
     return {"violated": bool(v), "violations": v}
